@@ -379,6 +379,16 @@ Definition h_builder (args : list sx) : sx :=
   | _ => sxerr 21
   end.
 
+(* ---- C03: (22 batch) -> the doc values computed from the postings (writeDicts' doc-value pass) ---- *)
+Definition h_dvbuild (args : list sx) : sx :=
+  match args with
+  | [b] => match batch_of_sx b with
+           | Some bt => L (map (fun e => L [B (fst e); L (map (fun de => L [A (fst de); L (map B (snd de))]) (snd e))]) (dv_run bt))
+           | None => sxerr 22
+           end
+  | _ => sxerr 22
+  end.
+
 Definition handle (orc : sx -> sx) (req : sx) : sx :=
   match req with
   | L (A k :: args) =>
@@ -400,6 +410,7 @@ Definition handle (orc : sx -> sx) (req : sx) : sx :=
       else if k =? 18 then h_reuse args
       else if k =? 20 then h_enum args
       else if k =? 21 then h_builder args
+      else if k =? 22 then h_dvbuild args
       else sxerr 0
   | _ => sxerr 0
   end.
